@@ -94,6 +94,14 @@ func (i vfInfo) ModTime() time.Time { return time.Time{} }
 func (i vfInfo) IsDir() bool        { return false }
 func (i vfInfo) Sys() any           { return nil }
 
+// truncation discards the bytes beyond the new length: a later write past the end leaves zeros in between
+func vfShrink(size int) {
+	for i := size; i < vfDisk.size && i < vfMaxFile; i++ {
+		vfDisk.data[i] = 0
+	}
+	vfDisk.size = size
+}
+
 func vfStat(name string) (os.FileInfo, error) {
 	verifYield()
 	if !vfDisk.exists {
@@ -113,7 +121,7 @@ func vfOpenFile(name string, flag int, perm os.FileMode) (*os.File, error) {
 		vfDisk.exists, vfDisk.size = true, 0
 	}
 	if flag&os.O_TRUNC != 0 {
-		vfDisk.size = 0
+		vfShrink(0)
 	}
 	vfInvariant("open")
 	f := new(os.File)
@@ -166,7 +174,7 @@ func vfTruncate(f *os.File, size int64) error {
 		return errors.New("truncate failed")
 	}
 	if int(size) < vfDisk.size {
-		vfDisk.size = int(size)
+		vfShrink(int(size))
 	}
 	vfInvariant("truncate")
 	return nil
@@ -413,4 +421,49 @@ func VerifC08Concurrent(size int) {
 		_, gerr := c.Get(d)
 		verifAssert(gerr == nil, "successful-store-stays-retrievable@concurrent-writers")
 	}
+}
+
+// VerifC08ConcurrentGood: two concurrent Puts of the same digest, BOTH from correct sources (two pulls
+// that need the same blob). Whatever the interleaving of their file-system calls, both succeed and the
+// file has the right content - no known-finding class applies here.
+func VerifC08ConcurrentGood(size int) {
+	d := vfSetup(size, -1, 0)
+	c := &DiskCache{dir: "/cache", now: time.Now}
+	done := make(chan error, 2)
+	for w := 0; w < 2; w++ {
+		go func() {
+			good := make([]byte, size)
+			copy(good, vfWant)
+			// the bytes arrive in pieces, so that the other writer can open the file in between
+			err := c.Put(d, &vfPieces{b: good}, int64(size))
+			if err == nil {
+				// at the moment a Put reports success the blob is there, complete and right
+				verifAssert(vfDisk.exists && vfDisk.size == len(vfWant), "blob-stored-at-full-size-when-put-returns")
+				vfInvariant("when-a-put-returns")
+			}
+			done <- err
+		}()
+	}
+	e1 := <-done
+	e2 := <-done
+	verifReach("both-returned")
+	verifAssert(e1 == nil && e2 == nil, "puts-of-correct-bytes-succeed")
+	vfInvariant("after-two-good-writers")
+	_, gerr := c.Get(d)
+	verifAssert(gerr == nil, "successful-store-stays-retrievable")
+	verifAssert(vfDisk.exists && vfDisk.size == len(vfWant), "blob-stored-at-full-size")
+}
+
+type vfPieces struct {
+	b   []byte
+	pos int
+}
+
+func (r *vfPieces) Read(p []byte) (int, error) {
+	if r.pos >= len(r.b) {
+		return 0, io.EOF
+	}
+	p[0] = r.b[r.pos]
+	r.pos++
+	return 1, nil
 }
